@@ -250,10 +250,17 @@ func (its *PushPullHandler) reserveUpdateSnapshot(ctx iface.OrdaContext) error {
 }
 
 func (its *PushPullHandler) commitToMongoDB() errors.OrdaError {
+	committedEnd := its.datatypeDoc.Sseq.End
 	its.datatypeDoc.Sseq.End = its.currentCP.Sseq
 	its.resPushPullPack.CheckPoint = its.currentCP
 	its.subClientDoc.UpdateAt()
 	if len(its.pushingOperations) > 0 {
+		// The commit is two writes: the operations, then the datatype document that records the
+		// end of the log. Operations beyond the recorded end are leftovers of a commit that
+		// stopped between the two; they occupy the sequence numbers this push is about to use.
+		if err := its.managers.Mongo.PurgeOperationsAfter(its.ctx, its.DUID, committedEnd); err != nil {
+			return errors.PushPullAbortionOfServer.New(its.ctx.L(), err.Error())
+		}
 		if err := its.managers.Mongo.InsertOperations(its.ctx, its.pushingOperations); err != nil {
 			return errors.PushPullAbortionOfServer.New(its.ctx.L(), err.Error())
 		}
@@ -280,7 +287,8 @@ func (its *PushPullHandler) pullOperations() errors.OrdaError {
 	}
 	sseqBegin := its.gotPushPullPack.CheckPoint.Sseq + 1
 	if its.datatypeDoc.Sseq.Begin <= sseqBegin && !its.gotOption.HasSnapshotBit() {
-		opList, sseqList, err := its.managers.Mongo.GetOperations(its.ctx, its.DUID, sseqBegin, constants.InfinitySseq)
+		// only up to the recorded end of the log: anything beyond it was never committed
+		opList, sseqList, err := its.managers.Mongo.GetOperations(its.ctx, its.DUID, sseqBegin, its.datatypeDoc.Sseq.End)
 		if err != nil {
 			return errors.PushPullAbortionOfServer.New(its.ctx.L(), err.Error())
 		}
